@@ -27,7 +27,7 @@ CLAIMED = {
          "Allocation is 'out of proportion' above 1 MiB + 64 bytes per input byte (plus what an Ok value retains); empty Bloom / Count-Min / Frequent-Items images may legitimately declare large tables. Looping is detected by the driver's shard watchdog only.",
          "DESIGN.md 5 (C14)"),
  "C17": ("runtime event monitor: valid-use programs (the histories of the behavioural monitors plus an extremes lane at documented limits) executed under debug-assertions + overflow-checks and under release; any panic is a violation",
-         EXPL + "Every debug_assert!, unreachable!, expect and arithmetic overflow in the library is armed in the dbg profile; programs include HLL lg_k 4/21 with cur_min shifts and exceptions, CPC lg_k 4/21/26 incl. windowed sketches at lg_k 21, t-digest k up to 65535 and empty split lists, Count-Min totals at the counter type's maximum.",
+         EXPL + "Every debug_assert!, unreachable!, expect and arithmetic overflow in the library is armed in the dbg profile; programs include a sweep over every lg_k of HLL 4..21 / CPC 4..26 / theta 5..26 (all queries at all three standard deviations on streamed, deserialized and united sketches), the public codec helpers, HLL lg_k 4/21 with cur_min shifts and exceptions, CPC lg_k 4/21/26 incl. windowed sketches at lg_k 21, t-digest k up to 65535 and empty split lists, Count-Min totals at the counter type's maximum.",
          "Documented panics (out-of-range parameters, incompatible merges, NaN rank, unsorted splits, seeds with a zero seed hash) are excluded by construction. Paths not driven are not covered.",
          "DESIGN.md 5 (C17)"),
  "C18": ("runtime measurement monitor: serialized sizes / retained counts after every power-of-two prefix of long streams vs the bound the configuration implies; CPC size claim by a binomial test over trials",
